@@ -40,6 +40,9 @@ KINDS = ["Operator", "SelfAdjointOperator", "Hamiltonian", "ReducedDensityMatrix
          "LindbladTensor", "LindbladOperators", "Evolution", "EvolutionSuperOperator"]
 
 
+COPY_KINDS = tuple(KINDS)
+
+
 def gen_cases(tier, rng):
     cases = []
     n = 400 if tier == "quick" else 3000
@@ -413,7 +416,7 @@ def run_case(case, ctx):
                 raise Boom("harness")
             if state["step"] > case["steps"]:
                 break
-            ev = str(rng.choice(["READ", "READ", "WRITE", "CREATE", "SCALARS", "APPLY", "PROTECT", "ENTER", "ENTER", "PROPAGATE", "MODCTX", "AT"]))
+            ev = str(rng.choice(["READ", "READ", "WRITE", "CREATE", "SCALARS", "APPLY", "PROTECT", "ENTER", "ENTER", "PROPAGATE", "MODCTX", "AT", "COPY", "COPY"]))
             i = int(rng.integers(0, len(objs)))
             o = objs[i]
             if ev == "READ":
@@ -429,6 +432,17 @@ def run_case(case, ctx):
                 check_read(o, Stot, level)
             elif ev == "CREATE":
                 objs.append(create(Stot))
+            elif ev == "COPY" and o.protected_S is None and o.kind in COPY_KINDS:
+                # a copy is a new managed object with the same content, wherever and whenever it is made (the original may last have been
+                # touched at an outer level and the copy may stay untouched until contexts are left)
+                import copy as _copy
+                events.append("CP:" + o.kind)
+                with ctx.lib("copy.copy of a managed object", mechanism=None, expect=Boom):
+                    c = _copy.copy(o.obj)
+                new = Obj(o.kind, c, numpy.array(o.ref, copy=True))
+                objs.append(new)
+                if rng.random() < 0.4:
+                    check_read(new, Stot, level)
             elif ev == "MODCTX":
                 # a context operator is written between two visits of its context (in place or by assignment)
                 cands = [x for x in ctxops if x.protected_S is None and not any(x is y for y in active)]
